@@ -25,6 +25,7 @@ struct GenOpts {
   GenOpts() : batch_ops(true), randoms(false), p_invalid(0), p_movement(0), min_ops(3), max_ops(12), explicit_batch_reshape(true), force_batched(false) {}
 };
 struct VInfo { Shp s; int dev; FV h; bool dep, taint, dead; int uses; };
+static long g_gen[OP_COUNT][3];   // per function: emit() attempts, rejected with Error, emitted
 
 struct Gen {
   Rng &r; GenOpts o; Program p; vector<VInfo> vi; DevCtx dc; ParamSet ps; Exec<Tensor> ex;
@@ -33,9 +34,14 @@ struct Gen {
 
   // ---------------------------------------------------------------- emission
   void rollback(size_t nv, int idx) { ex.v.resize(nv); ps.ps.erase(idx); }
+  // Every call of emit() is a call the generator built to be VALID.  An instruction that throws is dropped, so a
+  // function that wrongly rejects valid input would silently vanish from the programs: attempts / rejections /
+  // emissions are counted per function (g_gen, printed in the SUMMARY) and progcheck.py raises `prog-floor` for a
+  // function whose attempts are all rejected or that never reaches a checked program.
   int emit(const Instr &I) {
     size_t before = ex.v.size(); int idx = (int)p.ins.size();
-    try { ex.run(I, idx); } catch (Error &) { rollback(before, idx); return -1; } catch (BadProgram &) { rollback(before, idx); return -1; }
+    g_gen[I.code][0]++;
+    try { ex.run(I, idx); } catch (Error &) { g_gen[I.code][1]++; rollback(before, idx); return -1; } catch (BadProgram &) { g_gen[I.code][1]++; rollback(before, idx); return -1; }
     vector<FV> hs;
     for (size_t k = before; k < ex.v.size(); ++k) {
       if (ex.v[k].shape().size() > 600) { rollback(before, idx); return -1; }
@@ -44,7 +50,7 @@ struct Gen {
       hs.push_back(h);
     }
     if (hs.empty()) { rollback(before, idx); return -1; }
-    p.ins.push_back(I);
+    p.ins.push_back(I); g_gen[I.code][2]++;
     bool dep = I.code == OP_PAR, taint = op_is_random(I.code) || (I.code == OP_DROPOUT && !I.n.empty() && I.n[0]);
     for (int a : I.a) { dep = dep || vi[a].dep; taint = taint || vi[a].taint; vi[a].uses++; }
     int dev = 0;
